@@ -259,6 +259,18 @@ def nat_L(rng):
         e = max(e, np.abs(at.L(W, ik) + at.Omega * at.Gk2c[ik][:, None] * W).max())
         Wf = rnd(rng, at.Ns, 3)
         e = max(e, np.abs(at.L(Wf, ik) + at.Omega * at.Gk2[ik][:, None] * Wf).max())
+        # spin stacks (one and two channels) in the cut-off and in the full basis: every channel is treated like a state matrix
+        for nsp in (1, 2):
+            st = rnd(rng, nsp, len(at.Gk2c[ik]), 3)
+            out = np.asarray(at.L(st, ik))
+            e = max(e, 1.0 if out.shape != st.shape else np.abs(out + at.Omega * at.Gk2c[ik][None, :, None] * st).max())
+            stf = rnd(rng, nsp, at.Ns, 2)
+            out = np.asarray(at.L(stf, ik))
+            e = max(e, 1.0 if out.shape != stf.shape else np.abs(out + at.Omega * at.Gk2[ik][None, :, None] * stf).max())
+            oo = np.asarray(at.O(st))
+            e = max(e, 1.0 if oo.shape != st.shape else np.abs(oo - at.Omega * st).max())
+            kk = np.asarray(at.K(st, ik))
+            e = max(e, 1.0 if kk.shape != st.shape else np.abs((1 + at.Gk2c[ik][None, :, None]) * kk - st).max())
     return e
 
 
